@@ -236,7 +236,19 @@ class Exec:
             h = st.heap
             cont = z3.And(sb, h.kind_of(Z.addr(a)) != Z.K_OBJ, h.kind_of(Z.addr(a)) == h.kind_of(Z.addr(b)))
             if st.feasible(cont):
-                raise Unsupported("== between two containers (deep equality)", node)
+                # two sequences of scalars (shapes, index tuples): equal iff same kind, same length, equal items
+                aa, ab = Z.addr(a), Z.addr(b)
+                seqs = z3.And(Z.is_ref(a), Z.is_ref(b), z3.Or(h.kind_of(aa) == Z.K_TUPLE, h.kind_of(aa) == Z.K_LIST),
+                              z3.Or(h.kind_of(ab) == Z.K_TUPLE, h.kind_of(ab) == Z.K_LIST))
+                j = Z.fresh_int('jdeq')
+                ea, eb = z3.Select(h.elems(aa), j), z3.Select(h.elems(ab), j)
+                flat = z3.ForAll([j], z3.And(z3.Implies(z3.And(j >= 0, j < h.len_of(aa)), z3.Not(Z.is_ref(ea))),
+                                             z3.Implies(z3.And(j >= 0, j < h.len_of(ab)), z3.Not(Z.is_ref(eb)))))
+                if not (self.known(st, seqs) and st.implies(flat)):
+                    raise Unsupported("== between two containers (deep equality)", node)
+                item_eq = z3.If(z3.And(Z.is_num(ea), Z.is_num(eb)), Z.num(ea) == Z.num(eb), ea == eb)
+                return z3.Or(aa == ab, z3.And(h.kind_of(aa) == h.kind_of(ab), h.len_of(aa) == h.len_of(ab),
+                                              z3.ForAll([j], z3.Implies(z3.And(j >= 0, j < h.len_of(aa)), item_eq))))
         return z3.simplify(
             z3.If(z3.And(Z.is_num(a), Z.is_num(b)), self.num_cmp(a, b, lambda x, y: x == y),
                   z3.And(a == b, z3.Not(Z.is_nan(a)))))
@@ -977,9 +989,15 @@ class Exec:
             return [(st, Val.cls(z3.IntVal(-1)))]
         if txt == 'sys.maxsize':
             return [(st, Z.mk_i(2 ** 63 - 1))]
+        if txt in getattr(self.c, 'globals_read', {}) and self.c.globals_read[txt] in st.env:
+            return [(st, st.env[self.c.globals_read[txt]])]
         if txt in ('np.pi', 'np.e', 'math.pi', 'math.e'):
             # a named real constant (its decimal value is not needed by any obligation)
             return [(st, Z.mk_r(z3.Real('CONST_' + txt.split('.')[1].upper())))]
+        if isinstance(node.value, ast.Call) and isinstance(node.value.func, ast.Name) and node.value.func.id == 'super':
+            # super(C, self).method taken as a value (bound method): opaque; calling it needs a call-site contract for the local it is stored in
+            self._nsuper = getattr(self, '_nsuper', 0) + 1
+            return [(st, Val.fn(z3.IntVal(-500 - self._nsuper)))]
         out = []
         for (s, obj) in self.ev(node.value, st):
             out.extend(self.getattr(s, obj, node.attr, node))
